@@ -16,8 +16,9 @@ from . import build
 from .registry import PROPERTIES
 
 VERIF = build.VERIF
-RUN = os.path.join(VERIF, "build", "run")
-VIOL = os.path.join(VERIF, "build", "violations")
+RUN = os.path.join(build.BUILD, "run")
+VIOL = os.path.join(build.BUILD, "violations")
+EVIDENCE = os.environ.get("VERIF_EVIDENCE", os.path.join(VERIF, "evidence"))
 
 ENV = dict(os.environ)
 ENV["ASAN_OPTIONS"] = "detect_leaks=0:exitcode=77:abort_on_error=0:allocator_may_return_null=1:detect_stack_use_after_return=0"
@@ -315,8 +316,8 @@ def run_check(pid, tier, seed, only_replay=None):
         "coverage": cov, "assumptions": spec.get("assumptions", []), "wall_s": round(wall, 2),
         "violations": len(violations),
     }
-    os.makedirs(os.path.join(VERIF, "evidence"), exist_ok=True)
-    with open(os.path.join(VERIF, "evidence", pid + ".json"), "w") as f:
+    os.makedirs(EVIDENCE, exist_ok=True)
+    with open(os.path.join(EVIDENCE, pid + ".json"), "w") as f:
         json.dump(ev, f, indent=1, sort_keys=True)
         f.write("\n")
 
